@@ -154,6 +154,22 @@ pub fn main() -> i32 {
             println!("misjudged {bad}");
             0
         }
+        "flood-debug" => {
+            let n: usize = args.rest.first().and_then(|x| x.parse().ok()).unwrap_or(10);
+            let mut hits = 0;
+            for k in 0..n {
+                let t = std::time::Instant::now();
+                match procprops::flood_round() {
+                    Ok((lines, bad)) => {
+                        hits += usize::from(bad.is_some());
+                        println!("round {k}: {lines} lines {:?} {:?}", bad, t.elapsed());
+                    }
+                    Err(e) => println!("round {k}: machinery {e}"),
+                }
+            }
+            println!("hits {hits}/{n}");
+            0
+        }
         "sched-debug" => {
             let idx: usize = args.rest.first().and_then(|x| x.parse().ok()).unwrap_or(0);
             let choices: Vec<usize> = args.rest.iter().skip(1).filter_map(|x| x.parse().ok()).collect();
